@@ -45,6 +45,25 @@ for fid, commit, q, what in [
     ("call-trailing-comma", "c272091", "$[?count(@.a,)==1]", "$[?count(@.a,)==1] was accepted"),
 ]:
     fixed("C04", fid, commit, what, hole(q, "reject"))
+# ---- C03
+fixed("C03", "astral-shorthand", "0e160c5", "valid non-BMP member-name-shorthand ($.\U0001F600) was refused (RE_PROPERTY stopped at U+FFFF)", hole("$.\U0001F600", "accept"))
+fixed("C03", "zero-with-exponent", "fa7c6b5", "the valid number literals 0e1 / 0E-2 were refused by the leading-zero test", hole("$[?@.a==0e1]", "accept"))
+fixed("C03", "escaped-control", "1c29a0f", "\\u0000-\\u001f escapes were refused", hole("$['\\u0000\\u001f']", "accept"))
+fixed("C03", "logical-arg-paren", "6de8b16", "a parenthesized or negated argument of a function call was a syntax error", {"module": "vtools.props.c05", "func": "r_typed", "args": {"query": "$[?fl((@.a || @.b))]", "sig": {"fl": [["L"], "L"]}}})
+# ---- C05
+fixed("C05", "value-call-as-test-under-not", "8712ab1", "a ValueType call used as a test under '!' or beside '&&'/'||' compiled ($[?!length(@.a)])",
+      {"module": "vtools.props.c05", "func": "r_typed", "args": {"query": "$[?!f(@.a)]", "sig": {"f": [["V"], "V"]}}})
+fixed("C05", "value-call-as-test-in-or", "8712ab1", "$[?@.x || f(@.*)] with f: Logical -> Value compiled",
+      {"module": "vtools.props.c05", "func": "r_typed", "args": {"query": "$[?@.x || f(@.*)]", "sig": {"f": [["L"], "V"]}}})
+fixed("C05", "logical-param-rejects-logical-call", "8581119", "a LogicalType parameter refused a Logical/Nodes-typed call and a negation ($[?f(nn(@.*)) == 1], $[?f(!@.a)])",
+      {"module": "vtools.props.c05", "func": "r_typed", "args": {"query": "$[?f(!@.a)]", "sig": {"f": [["L"], "L"]}}})
+fixed("C05", "logical-param-rejects-nodes-call", "8581119", "f(nn(@.*)) with f: Logical -> Value, nn: Nodes -> Nodes was refused",
+      {"module": "vtools.props.c05", "func": "r_typed", "args": {"query": "$[?f(nn(@.*)) == 1]", "sig": {"f": [["L"], "V"], "nn": [["N"], "N"]}}})
+fixed("C05", "paren-argument", "6de8b16", "a parenthesized argument for a LogicalType parameter was a syntax error ($[?f((@.a))])",
+      {"module": "vtools.props.c05", "func": "r_typed", "args": {"query": "$[?f((@.a))]", "sig": {"f": [["L"], "L"]}}})
+# ---- C09
+fixed("C09", "escaped-control", "1c29a0f", "$['\\u0000'] .. $['\\u001f'] were rejected although valid", {"module": "vtools.props.c09", "func": "r_hex", "args": {"digits": "0000"}})
+fixed("C09", "escaped-control-1f", "1c29a0f", "$['\\u001F'] was rejected", {"module": "vtools.props.c09", "func": "r_hex", "args": {"digits": "001F"}})
 # ---- C13
 fixed("C13", "overflow-literal", "2f6bcae", "$[?@.a==1e400] raised OverflowError", hole("$[?@.a==1e400]", "total"))
 fixed("C13", "count-on-scalar", "1a173fd", "$[?count(@) == 1] on a scalar child raised TypeError",
